@@ -866,7 +866,7 @@ class CSSStyleSheet(cssutils.stylesheets.StyleSheet):
 
         if rule.IMPORT_RULE == rule.type and not rule.hrefFound:
             # try loading the imported sheet which has new relative href now
-            rule.href = rule.href
+            rule._setHref(rule.href)
 
         return index
 
